@@ -393,7 +393,8 @@ class Staircase(Pbox):
                 self.mean_lo, self.mean_hi = mean_lo, mean_hi
                 self.var_lo, self.var_hi = var_lo, var_hi
                 mean_I = I(self.mean_lo, self.mean_hi)
-                var_I = I(self.var_lo, self.var_hi)
+                # the variances of the two bounding distributions come in no particular order
+                var_I = I(min(var_lo, var_hi), max(var_lo, var_hi))
                 method_used = "ecdf_fallback"
             except Exception as e:
                 errors.append(("ecdf_fallback", repr(e)))
